@@ -308,3 +308,187 @@ Proof.
         destruct P3 as [B0 [B1 [B2 [B3 [B4 B5]]]]].
         unfold fill_post. split; [exact B0|]. repeat split; auto; try lia; congruence.
 Qed.
+
+Lemma fill_buf_spec S r : Inv S r -> exists r', fill_buf_now r = Ok r' /\ fill_post S r r'.
+Proof.
+  intros HI. unfold fill_buf_now, fill_buf.
+  destruct (r_elr r) eqn:Hel.
+  - cbn [bind]. rewrite (window_chk_ok S r HI). cbn [bind]. exists r. split; [reflexivity|].
+    apply fill_post_refl; [exact HI|]. right. apply (inv_elr S r HI). exact Hel.
+  - destruct (fill_loop_spec S (Datatypes.S (length (s_rest (r_in r)))) r HI Hel ltac:(lia)) as [r' [E P]].
+    rewrite E. cbn [bind]. destruct P as [HI' P]. rewrite (window_chk_ok S r' HI'). cbn [bind].
+    exists r'. split; [reflexivity|]. split; assumption.
+Qed.
+
+Lemma set_pos_inv S r p : Inv S r -> p <= r_cap r -> Inv S (set_pos r p).
+Proof.
+  intros [Hp Hc Hl Hr Hu HS He Hb Hre Hel] H. constructor; cbn [set_pos r_pos r_cap r_abs r_low r_buf r_in r_elr]; auto.
+Qed.
+
+Lemma consume_spec S r amt :
+  Inv S r -> nlen (r_buf r) + amt <= usizemax ->
+  exists r', consume r amt = Ok r' /\ Inv S r' /\
+             stream_pos r' = stream_pos r + N.min amt (r_cap r - r_pos r) /\
+             r_cap r' - r_pos r' = (r_cap r - r_pos r) - N.min amt (r_cap r - r_pos r) /\
+             r_low r' = r_low r /\ nlen (r_buf r') = nlen (r_buf r).
+Proof.
+  intros HI Ha. pose proof HI as HI0. destruct HI as [Hp Hc Hl Hr Hu HS He Hb Hre Hel].
+  unfold consume. rewrite add_chk_ok by lia. cbn [bind]. eexists. split; [reflexivity|].
+  split; [apply set_pos_inv; [exact HI0|lia]|].
+  unfold stream_pos. cbn [set_pos r_pos r_cap r_abs r_low r_buf]. repeat split; lia.
+Qed.
+
+Lemma read_spec S r k :
+  Inv S r ->
+  exists bs r', read compact r k = Ok (bs, r') /\ Inv S r' /\
+                bs = ntake (nlen bs) (ndrop (stream_pos r) S) /\
+                stream_pos r' = stream_pos r + nlen bs /\ nlen bs <= k /\
+                N.min k (N.min (r_low r) (nlen S - stream_pos r)) <= nlen bs /\
+                r_low r' = r_low r /\ nlen (r_buf r') = nlen (r_buf r).
+Proof.
+  intros HI. unfold read. destruct (fill_buf_spec S r HI) as [r1 [E1 [HI1 [Hsp [Hla [Hmono [Hl1 Hb1]]]]]]].
+  unfold fill_buf_now in E1. rewrite E1. cbn [bind].
+  pose proof (window_spec S r1 HI1) as Hw. pose proof (window_len S r1 HI1) as Hwl.
+  set (bs := ntake k (window r1)).
+  assert (Hbl : nlen bs = N.min k (r_cap r1 - r_pos r1)) by (unfold bs; rewrite nlen_ntake, Hwl; reflexivity).
+  pose proof HI1 as HI1'. destruct HI1' as [Hp Hc Hl Hr Hu HS He Hb Hre Hel].
+  destruct (consume_spec S r1 (nlen bs) HI1 ltac:(lia)) as [r2 [E2 [HI2 [Hsp2 [Hib2 [Hl2 Hb2]]]]]].
+  rewrite E2. cbn [bind]. exists bs, r2. split; [reflexivity|]. split; [exact HI2|].
+  split; [|split; [|split; [|split; [|split]]]].
+  - unfold bs at 2. rewrite Hw, ntake_ntake, <- Hsp. f_equal. lia.
+  - lia.
+  - lia.
+  - rewrite Hbl. destruct Hla as [Hla|Hla].
+    + lia.
+    + rewrite Hre in Hla. apply (f_equal nlen) in Hla. rewrite nlen_ndrop in Hla. cbn in Hla.
+      unfold stream_pos in *. lia.
+  - congruence.
+  - congruence.
+Qed.
+
+Lemma seek_start_spec S r n :
+  Inv S r ->
+  exists x r', seek_start compact r n = Ok (x, r') /\ Inv S r' /\
+               r_low r' = r_low r /\ nlen (r_buf r') = nlen (r_buf r) /\
+               match x with
+               | Some m => m = n /\ stream_pos r' = n
+               | None => stream_pos r' = stream_pos r /\
+                         ~ (0 < r_cap r - r_pos r /\ stream_pos r <= n <= stream_pos r + (r_cap r - r_pos r))
+               end.
+Proof.
+  intros HI. unfold seek_start.
+  assert (H1 : exists r1, (if r_cap r =? 0 then fill_buf compact r else Ok r) = Ok r1 /\ Inv S r1 /\
+                          stream_pos r1 = stream_pos r /\ r_low r1 = r_low r /\ nlen (r_buf r1) = nlen (r_buf r) /\
+                          (r_cap r <> 0 -> r1 = r)).
+  { destruct (r_cap r =? 0) eqn:E0.
+    - apply N.eqb_eq in E0. destruct (fill_buf_spec S r HI) as [r1 [E1 [HI1 [Hsp [_ [_ [Hl1 Hb1]]]]]]].
+      exists r1. split; [exact E1|]. repeat split; auto. intros H. lia.
+    - exists r. split; [reflexivity|]. split; [exact HI|]. repeat split; auto. }
+  destruct H1 as [r1 [E1 [HI1 [Hsp [Hl1 [Hb1 Hsame]]]]]]. rewrite E1. cbn [bind].
+  pose proof HI1 as HI1'. destruct HI1' as [Hp Hc Hl Hr Hu HS He Hb Hre Hel].
+  destruct (n <? r_abs r1) eqn:En.
+  - apply N.ltb_lt in En. exists None, r1. split; [reflexivity|]. split; [exact HI1|]. repeat split; auto.
+    intros [Hpos [Hlo Hhi]]. assert (r1 = r) by (apply Hsame; lia). subst r1. unfold stream_pos in *. lia.
+  - apply N.ltb_ge in En. rewrite add_chk_ok by lia. cbn [bind].
+    destruct (r_abs r1 + r_cap r1 <? n) eqn:En2.
+    + apply N.ltb_lt in En2. exists None, r1. split; [reflexivity|]. split; [exact HI1|]. repeat split; auto.
+      intros [Hpos [Hlo Hhi]]. assert (r1 = r) by (apply Hsame; lia). subst r1. unfold stream_pos in *.
+      pose proof (inv_pos S r HI). lia.
+    + apply N.ltb_ge in En2. rewrite sub_chk_ok by lia. cbn [bind].
+      exists (Some n), (set_pos r1 (n - r_abs r1)). split; [reflexivity|].
+      split; [apply set_pos_inv; [exact HI1|lia]|].
+      unfold stream_pos. cbn [set_pos r_pos r_abs r_low r_buf]. repeat split; auto. lia.
+Qed.
+
+Lemma seek_cur_spec S r d :
+  Inv S r ->
+  exists x r', seek_cur compact r d = Ok (x, r') /\ Inv S r' /\
+               r_low r' = r_low r /\ nlen (r_buf r') = nlen (r_buf r) /\
+               let n := sat_add_signed (stream_pos r) d in
+               match x with
+               | Some m => m = n /\ stream_pos r' = n
+               | None => stream_pos r' = stream_pos r /\
+                         ~ (0 < r_cap r - r_pos r /\ stream_pos r <= n <= stream_pos r + (r_cap r - r_pos r))
+               end.
+Proof.
+  intros HI. unfold seek_cur. pose proof HI as HI'. destruct HI' as [Hp Hc Hl Hr Hu HS He Hb Hre Hel].
+  rewrite add_chk_ok by lia. cbn [bind]. apply seek_start_spec. exact HI.
+Qed.
+
+(* ------------------------------------------------------------------ one step / a run *)
+Lemma step_spec S r o :
+  Inv S r -> op_wf (nlen (r_buf r)) o ->
+  exists x r', step_now r o = Ok (x, r') /\ Inv S r' /\ r_low r' = r_low r /\ nlen (r_buf r') = nlen (r_buf r) /\
+               let e := {| e_op := o; e_out := x; e_win := window r' |} in
+               ev_ok S (r_low r) (stream_pos r) (nlen (window r)) e /\
+               stream_pos r' = next_pos (stream_pos r) (nlen (window r)) e.
+Proof.
+  intros HI Hwf. rewrite (window_len S r HI). unfold step_now, step.
+  destruct o as [|n|k|n|d|d].
+  - (* fill *)
+    destruct (fill_buf_spec S r HI) as [r1 [E1 [HI1 [Hsp [Hla [Hmono [Hl1 Hb1]]]]]]].
+    unfold fill_buf_now in E1. rewrite E1. cbn [bind].
+    exists (RFill (window r1)), r1. split; [reflexivity|]. split; [exact HI1|]. split; [exact Hl1|]. split; [exact Hb1|].
+    cbn zeta. unfold ev_ok, next_pos. cbn [e_op e_out e_win].
+    split; [|exact Hsp]. split; [rewrite <- Hsp; apply window_slice; exact HI1|].
+    rewrite (window_len S r1 HI1). split; [reflexivity|]. split; [exact Hmono|].
+    destruct Hla as [Hla|Hla]; [left; lia|right].
+    rewrite (inv_rest S r1 HI1) in Hla. apply (f_equal nlen) in Hla. rewrite nlen_ndrop in Hla. cbn in Hla.
+    pose proof (inv_end S r1 HI1). pose proof (inv_pos S r1 HI1). unfold stream_pos in *. lia.
+  - (* consume *)
+    cbn [op_wf] in Hwf.
+    destruct (consume_spec S r n HI Hwf) as [r1 [E1 [HI1 [Hsp [Hib [Hl1 Hb1]]]]]].
+    rewrite E1. cbn [bind]. exists RUnit, r1. split; [reflexivity|]. split; [exact HI1|]. split; [exact Hl1|]. split; [exact Hb1|].
+    cbn zeta. unfold ev_ok, next_pos. cbn [e_op e_out e_win].
+    split; [|exact Hsp]. split; [rewrite <- Hsp; apply window_slice; exact HI1|].
+    rewrite (window_len S r1 HI1). exact Hib.
+  - (* read *)
+    destruct (read_spec S r k HI) as [bs [r1 [E1 [HI1 [Hbs [Hsp [Hk [Hmin [Hl1 Hb1]]]]]]]]].
+    rewrite E1. cbn [bind]. exists (RRead bs), r1. split; [reflexivity|]. split; [exact HI1|]. split; [exact Hl1|]. split; [exact Hb1|].
+    cbn zeta. unfold ev_ok, next_pos. cbn [e_op e_out e_win].
+    split; [|exact Hsp]. split; [rewrite <- Hsp; apply window_slice; exact HI1|].
+    split; [exact Hbs|]. split; [exact Hk|exact Hmin].
+  - (* seek start *)
+    destruct (seek_start_spec S r n HI) as [x [r1 [E1 [HI1 [Hl1 [Hb1 Hx]]]]]].
+    rewrite E1. cbn [bind]. exists (RSeek x), r1. split; [reflexivity|]. split; [exact HI1|]. split; [exact Hl1|]. split; [exact Hb1|].
+    cbn zeta. unfold ev_ok, next_pos. cbn [e_op e_out e_win seek_target].
+    destruct x as [m|].
+    + destruct Hx as [Hm Hsp]. subst m. split; [|exact Hsp].
+      split; [rewrite <- Hsp; apply window_slice; exact HI1|reflexivity].
+    + destruct Hx as [Hsp Hno]. split; [|exact Hsp].
+      split; [rewrite <- Hsp; apply window_slice; exact HI1|].
+      intros n' Hn'. inversion Hn'; subst n'. exact Hno.
+  - (* seek current *)
+    destruct (seek_cur_spec S r d HI) as [x [r1 [E1 [HI1 [Hl1 [Hb1 Hx]]]]]].
+    rewrite E1. cbn [bind]. exists (RSeek x), r1. split; [reflexivity|]. split; [exact HI1|]. split; [exact Hl1|]. split; [exact Hb1|].
+    cbn zeta in Hx |- *. unfold ev_ok, next_pos. cbn [e_op e_out e_win seek_target].
+    destruct x as [m|].
+    + destruct Hx as [Hm Hsp]. subst m. split; [|exact Hsp].
+      split; [rewrite <- Hsp; apply window_slice; exact HI1|reflexivity].
+    + destruct Hx as [Hsp Hno]. split; [|exact Hsp].
+      split; [rewrite <- Hsp; apply window_slice; exact HI1|].
+      intros n' Hn'. inversion Hn'; subst n'. exact Hno.
+  - (* seek end: unsupported *)
+    cbn [bind]. exists (RSeek None), r. split; [reflexivity|]. split; [exact HI|]. split; [reflexivity|]. split; [reflexivity|].
+    cbn zeta. unfold ev_ok, next_pos. cbn [e_op e_out e_win].
+    split; [|reflexivity]. split; [apply window_slice; exact HI|exact I].
+Qed.
+
+Lemma run_spec S : forall ops r,
+  Inv S r -> Forall (op_wf (nlen (r_buf r))) ops ->
+  exists evs r', run_now r ops = Ok (evs, r') /\ Inv S r' /\ r_low r' = r_low r /\ nlen (r_buf r') = nlen (r_buf r) /\
+                 trace_ok S (r_low r) (stream_pos r) (nlen (window r)) evs /\
+                 stream_pos r' = final_pos (stream_pos r) (nlen (window r)) evs /\
+                 map e_op evs = ops.
+Proof.
+  induction ops as [|o ops IH]; intros r HI Hwf.
+  - exists [], r. cbn. repeat split; auto.
+  - inversion Hwf as [|? ? Hwo Hwops]; subst.
+    destruct (step_spec S r o HI Hwo) as [x [r1 [E1 [HI1 [Hl1 [Hb1 [Hev Hsp]]]]]]].
+    cbn zeta in Hev, Hsp.
+    destruct (IH r1 HI1 ltac:(rewrite Hb1; exact Hwops)) as [evs [r2 [E2 [HI2 [Hl2 [Hb2 [Htr [Hfin Hops]]]]]]]].
+    unfold run_now in *. cbn [run]. unfold step_now in E1. rewrite E1. cbn [bind]. rewrite E2. cbn [bind].
+    eexists. exists r2. split; [reflexivity|]. split; [exact HI2|]. split; [congruence|]. split; [congruence|].
+    cbn [trace_ok final_pos map e_op e_win]. rewrite <- Hsp. rewrite <- Hl1.
+    split; [split; [exact Hev|exact Htr]|]. split; [exact Hfin|]. f_equal. exact Hops.
+Qed.
